@@ -3,6 +3,7 @@
 package core
 
 import (
+	"context"
 	"time"
 
 	"github.com/paulmach/osm"
@@ -126,4 +127,199 @@ func oracleC11IgnoredForward(gapsSec []int, visible []bool, sameCS []bool, atSec
 		}
 	}
 	vAssert(cl.FindVisible(cid, at, eps) == kept.FindVisible(cid, at, eps))
+}
+
+// ---- Compute as a whole, commit-time regime, threshold 0 ----
+
+type c11P struct {
+	at      time.Time
+	cs      osm.ChangesetID
+	visible bool
+	refs    osm.FeatureIDs
+	set     map[int]*shared.Child
+	setN    int
+}
+
+func (p *c11P) ID() osm.FeatureID            { return osm.WayID(1).FeatureID() }
+func (p *c11P) ChangesetID() osm.ChangesetID { return p.cs }
+func (p *c11P) Version() int                 { return 1 }
+func (p *c11P) Visible() bool                { return p.visible }
+func (p *c11P) Timestamp() time.Time         { return p.at }
+func (p *c11P) Committed() time.Time         { return p.at }
+func (p *c11P) Refs() (osm.FeatureIDs, []bool) {
+	return p.refs, make([]bool, len(p.refs))
+}
+func (p *c11P) SetChild(i int, c *shared.Child) {
+	p.setN++
+	p.set[i] = c
+}
+
+type c11DS struct {
+	lists   map[osm.FeatureID]ChildList
+	missing map[osm.FeatureID]bool
+}
+
+type c11NotFound struct{}
+
+func (c11NotFound) Error() string { return "not found" }
+
+func (d *c11DS) Get(ctx context.Context, id osm.FeatureID) (ChildList, error) {
+	if d.missing[id] {
+		return nil, c11NotFound{}
+	}
+	return d.lists[id], nil // may be empty: a datasource that answers "no rows" without an error
+}
+func (d *c11DS) NotFound(err error) bool { _, ok := err.(c11NotFound); return ok }
+
+// C11: "each child reference carries the version ... of the child that was
+// current when that parent version was committed, and the parent's update
+// list contains exactly the later child versions up to the next parent
+// version ... Deleted parent versions receive no annotations, and inconsistent
+// or missing child histories produce the documented typed errors unless the
+// corresponding ignore option is set." Reference computed here directly from
+// commit times; Compute must agree and must not crash.
+//
+//@ func oracleC11Compute
+//@   props C11
+//@   oracle
+//@   covers core.Compute
+//@   covers core.nextVersionIndex
+//@   covers core.mapChildLocs
+//@   covers GroupByParent
+func oracleC11Compute(childHours [][]int, childVis [][]bool, parentHours []int, parentVis []bool, refSel []int, missingSel int, ignoreInc bool, ignoreMissing bool) {
+	abs := func(x int) int {
+		if x < 0 {
+			if x == -x {
+				return 0
+			}
+			return -x
+		}
+		return x
+	}
+	nc := len(childHours)
+	vAssume(nc >= 1 && nc <= 3 && len(parentHours) >= 1 && len(parentHours) <= 4)
+	base := time.Date(2015, 1, 1, 0, 0, 0, 0, time.UTC)
+	ds := &c11DS{lists: map[osm.FeatureID]ChildList{}, missing: map[osm.FeatureID]bool{}}
+	fids := make([]osm.FeatureID, nc)
+	for ci := 0; ci < nc; ci++ {
+		fids[ci] = osm.NodeID(ci + 1).FeatureID()
+		vAssume(len(childHours[ci]) <= 5)
+		t := base
+		var cl ChildList
+		for k, g := range childHours[ci] {
+			t = t.Add(time.Duration(abs(g)%4+1) * time.Hour) // strictly increasing commit times
+			vis := true
+			if ci < len(childVis) && k < len(childVis[ci]) {
+				vis = childVis[ci][k]
+			}
+			cl = append(cl, &shared.Child{ID: fids[ci], Version: k + 1, VersionIndex: k, Timestamp: t, Committed: t, Visible: vis, ChangesetID: osm.ChangesetID(100 + k)})
+		}
+		ds.lists[fids[ci]] = cl // nil when there are no versions
+	}
+	if m := abs(missingSel) % (nc + 2); m < nc {
+		ds.missing[fids[m]] = true
+	}
+	var parents []Parent
+	var ps []*c11P
+	t := base
+	for i, g := range parentHours {
+		t = t.Add(time.Duration(abs(g)%5+1) * time.Hour)
+		p := &c11P{at: t.Add(30 * time.Minute), cs: 7, visible: true, set: map[int]*shared.Child{}} // never at a child's commit time
+		if i < len(parentVis) {
+			p.visible = parentVis[i]
+		}
+		// references: up to three, children may repeat within a parent
+		for j := 0; j < 3; j++ {
+			s := 0
+			if i*3+j < len(refSel) {
+				s = abs(refSel[i*3+j])
+			}
+			if s%(nc+1) < nc {
+				p.refs = append(p.refs, fids[s%(nc+1)])
+			}
+		}
+		ps = append(ps, p)
+		parents = append(parents, p)
+	}
+	opts := &Options{IgnoreInconsistency: ignoreInc, IgnoreMissingChildren: ignoreMissing}
+	got, err := Compute(context.Background(), parents, ds, opts)
+
+	// reference
+	type upd struct{ idx, version int }
+	wantErr := false
+	want := make([]map[upd]int, len(ps))
+	wantSet := make([]map[int]*shared.Child, len(ps))
+	for i, p := range ps {
+		want[i] = map[upd]int{}
+		wantSet[i] = map[int]*shared.Child{}
+		for j, fid := range p.refs {
+			if ds.missing[fid] {
+				if !ignoreMissing {
+					wantErr = true
+				}
+				continue
+			}
+			if !p.visible {
+				continue // a deleted parent version receives nothing
+			}
+			cl := ds.lists[fid]
+			var cur *shared.Child
+			for _, c := range cl {
+				if !c.Committed.After(p.at) {
+					cur = c
+				}
+			}
+			if cur != nil && !cur.Visible {
+				cur = nil
+			}
+			if cur == nil {
+				if !ignoreInc {
+					wantErr = true
+				}
+			} else {
+				wantSet[i][j] = cur
+			}
+			for _, c := range cl {
+				if !c.Committed.After(p.at) {
+					continue
+				}
+				if i+1 < len(ps) && !c.Committed.Before(ps[i+1].at) {
+					continue
+				}
+				if !c.Visible {
+					if !ignoreInc {
+						wantErr = true
+					}
+					continue
+				}
+				want[i][upd{j, c.Version}]++
+			}
+		}
+	}
+	if wantErr {
+		vAssert(err != nil)
+		return
+	}
+	vAssert(err == nil && len(got) == len(ps))
+	if err != nil || len(got) != len(ps) {
+		return
+	}
+	for i, p := range ps {
+		if !p.visible {
+			vAssert(p.setN == 0 && len(got[i]) == 0)
+			continue
+		}
+		for j := range p.refs {
+			vAssert(p.set[j] == wantSet[i][j])
+		}
+		have := map[upd]int{}
+		for k, u := range got[i] {
+			have[upd{u.Index, u.Version}]++
+			vAssert(k == 0 || got[i][k-1].Index <= u.Index)
+		}
+		vAssert(len(have) == len(want[i]))
+		for k, n := range want[i] {
+			vAssert(have[k] == n)
+		}
+	}
 }
